@@ -116,12 +116,15 @@ struct Outcome {
 };
 
 // Runs body(result_fd) in a forked child. The child may write any text to result_fd and must return (then _exit(0)).
-inline Outcome run_child(const std::function<void(int)> &body, double timeout_s){
+// timeout_s is a wall-clock limit. cpu_limit_s > 0 additionally limits the CPU time of the child (ITIMER_PROF; SIGPROF terminates it) and is reported
+// as TIMEOUT as well: a limit on CPU time does not shrink when the machine is loaded or slow to schedule, a runaway loop still runs into it.
+inline Outcome run_child(const std::function<void(int)> &body, double timeout_s, double cpu_limit_s = 0.0){
     int pr[2], pe[2]; if (pipe(pr) || pipe(pe)){ perror("pipe"); exit(2); }
     pid_t pid = fork();
     if (pid < 0){ perror("fork"); exit(2); }
     if (pid == 0){
         close(pr[0]); close(pe[0]); dup2(pe[1], 2); close(pe[1]);
+        if (cpu_limit_s > 0){ struct itimerval it; memset(&it, 0, sizeof(it)); it.it_value.tv_sec = (time_t) std::floor(cpu_limit_s); it.it_value.tv_usec = (suseconds_t) ((cpu_limit_s - std::floor(cpu_limit_s)) * 1e6); setitimer(ITIMER_PROF, &it, nullptr); }
         body(pr[1]);
         _exit(0);
     }
@@ -143,6 +146,7 @@ inline Outcome run_child(const std::function<void(int)> &body, double timeout_s)
     close(pr[0]); close(pe[0]);
     int st = 0; while(waitpid(pid, &st, 0) < 0 && errno == EINTR){}
     bool san = o.err.find("Sanitizer") != std::string::npos || o.err.find("runtime error:") != std::string::npos;
+    if (cpu_limit_s > 0 && WIFSIGNALED(st) && WTERMSIG(st) == SIGPROF) timed_out = true;
     if (timed_out){ o.kind = Outcome::TIMEOUT; }
     else if (san){ o.kind = Outcome::SANITIZER; o.code = WIFEXITED(st) ? WEXITSTATUS(st) : -WTERMSIG(st); }
     else if (WIFSIGNALED(st)){ o.kind = Outcome::SIGNAL; o.code = WTERMSIG(st); }
